@@ -399,7 +399,7 @@ func Run(job *wk.Job, w *wk.Worker) error {
 		byName[rt.Name] = i
 	}
 	one := func(c Case, traced, counted bool) {
-		if c.Type == "cycle" || c.Type == "stack-value" {
+		if c.Type == "cycle" || c.Type == "stack-value" || c.Type == "shared-deep" {
 			return
 		}
 		holderCase := strings.HasPrefix(c.Type, "H_")
@@ -424,6 +424,8 @@ func Run(job *wk.Job, w *wk.Worker) error {
 			r.afterFailure(false)
 		} else if c.Type == "stack-value" {
 			r.stackValues(false)
+		} else if c.Type == "shared-deep" {
+			r.sharedDeep(false)
 		} else {
 			one(c, false, false)
 		}
@@ -478,6 +480,12 @@ func Run(job *wk.Job, w *wk.Worker) error {
 		w.Begin(idx, func() interface{} { return Case{Type: "stack-value"} })
 		w.Nontrivial()
 		r.stackValues(true)
+	}
+	idx++
+	if w.Mine(idx) {
+		w.Begin(idx, func() interface{} { return Case{Type: "shared-deep"} })
+		w.Nontrivial()
+		r.sharedDeep(true)
 	}
 	return nil
 }
